@@ -326,6 +326,30 @@ Theorem envelope_points_corners :
     In (x0, y0) pts /\ In (x1, y0) pts /\ In (x1, y1) pts /\ In (x0, y1) pts.
 Proof. exact Grid_proofs.envelope_points_corners. Qed.
 
+(* ---------------------------------------------------------------- grids built from the configuration *)
+
+(* GridConfiguration.tile_grid: stretch_factor, max_shrink_factor and tile_size of a configured grid are the grid's own
+   options (conf_value: own option, else the option under globals, else the built-in default) ... *)
+Theorem configured_grid_own_options :
+  forall g0 sf shr ts sf_glob shr_glob ts_glob,
+    let g := configured_grid g0 (Some sf) sf_glob (Some shr) shr_glob (Some ts) ts_glob in
+    (sf_n g, sf_d g) = sf /\ (shr_n g, shr_d g) = shr /\ (tw g, th g) = ts.
+Proof. exact Grid_proofs.configured_grid_own_options. Qed.
+
+Theorem configured_grid_global_options :
+  forall g0 sf shr ts,
+    let g := configured_grid g0 None (Some sf) None (Some shr) None (Some ts) in
+    (sf_n g, sf_d g) = sf /\ (shr_n g, shr_d g) = shr /\ (tw g, th g) = ts.
+Proof. exact Grid_proofs.configured_grid_global_options. Qed.
+
+(* ... so the level chosen on a configured grid is the one of closest_level_spec for the *configured* stretch factor. *)
+Theorem configured_level_choice :
+  forall g0 sn sd sf_glob shr_loc shr_glob ts_loc ts_glob rn rd,
+    let g := configured_grid g0 (Some (sn, sd)) sf_glob shr_loc shr_glob ts_loc ts_glob in
+    decreasing_res g -> 0 < levels g -> 0 < rd -> 0 < rn -> 0 < sd <= sn ->
+    sf_n g = sn /\ sf_d g = sd /\ closest_level_spec_of g rn rd (closest_level g rn rd).
+Proof. exact Grid_proofs.configured_level_choice. Qed.
+
 (* ---------------------------------------------------------------- tie of the integer helpers to the source *)
 
 (* The hand-written flip_tile_coord, limit_tile (integer levels) and create_tile_list of the model are equal to
